@@ -102,7 +102,7 @@ fn ref_eval(e: &AExpr, row: &[Option<i64>]) -> Result<Option<i64>, ()> {
 
 fn gen_expr(r: &mut Rng, depth: usize, ncols: usize, hot_consts: &[i64]) -> AExpr {
     if depth == 0 || r.chance(1, 4) {
-        if r.chance(2, 3) {
+        if r.chance(2, 3) || depth == 0 && false {
             AExpr::Col(r.below(ncols as u64) as usize)
         } else {
             AExpr::Const(match r.below(4) {
@@ -116,6 +116,9 @@ fn gen_expr(r: &mut Rng, depth: usize, ncols: usize, hot_consts: &[i64]) -> AExp
         let op = *r.pick(&OPS);
         let l = gen_expr(r, depth - 1, ncols, hot_consts);
         let mut rr = gen_expr(r, depth - 1, ncols, hot_consts);
+        if (op == "mod" || op == "div") && r.chance(1, 6) {
+            rr = AExpr::Const(*r.pick(&[-1i64, 0, 1]));
+        }
         if !l.has_col() && !rr.has_col() {
             rr = AExpr::Col(r.below(ncols as u64) as usize);
         }
@@ -135,7 +138,7 @@ fn gen_int_col(r: &mut Rng, n: usize, class: usize) -> Vec<i64> {
         5 => (0, (1 << 32) - 1),
         6 => ((1 << 32) - 5, (1 << 32) + 5),
         7 => ((i64::MAX - 300) as i128, (i64::MAX - 1) as i128), // top of i64 (i64::MAX itself is reserved)
-        8 => ((i64::MIN + 1) as i128, (i64::MIN + 300) as i128), // bottom of i64
+        8 => (i64::MIN as i128, (i64::MIN + 300) as i128),       // bottom of i64
         9 => (-3, 3),
         10 => ((1 << 31) - 3, (1 << 31) + 3),
         _ => (-(1 << 40), 1 << 40),
@@ -162,12 +165,14 @@ pub fn gen_int_table(r: &mut Rng, n: usize) -> Table {
             .enumerate()
             .map(|(i, v)| {
                 let null = match ci {
-                    2 => r.chance(1, 4),
+                    2 => r.chance(1, 6),
                     3 => i >= stretch_start && i < stretch_start + stretch_len,
                     _ => false,
                 };
                 if nullable && null {
                     V::Null
+                } else if nullable && *v == i64::MIN {
+                    V::Int(i64::MIN + 1) // [i64::MIN, NULL] is C01's F19
                 } else {
                     V::Int(*v)
                 }
@@ -226,13 +231,47 @@ impl Suite for C06Api {
                 // column d (absent from some partitions) only in 1 of 8 expression queries
                 let ncols = if qi == 7 { names.len() } else { names.len() - 1 };
                 let depth = 1 + r.below(3) as usize;
-                let e = gen_expr(&mut r, depth, ncols, &hot);
+                let mut e = gen_expr(&mut r, depth, ncols, &hot);
+                if !e.has_col() {
+                    e = AExpr::Col(r.below(ncols as u64) as usize); // `SELECT <constant>` is not this property's subject
+                }
                 let class = format!(
                     "expr:{}{}",
                     layout.shape(),
                     if e.uses(3) { ":absent-col" } else if e.uses(2) { ":nullable" } else { "" }
                 );
                 cases.push(Case { class, input: Sx::tagged("expr", vec![table.sx(), layout.sx(), e.sx()]) });
+            }
+            if ti % 20 == 3 {
+                // i64::MIN % -1 (F9), also as MIN / -1 and (MIN + 1) / -1 (the conservative guard)
+                let a = vec![i64::MIN, i64::MIN + 1, i64::MIN + 2, 7];
+                let t2 = Table {
+                    cols: vec![
+                        Col { name: "id".into(), kind: Kind::Int, omit_when_null: false, cells: (0..a.len() as i64).map(V::Int).collect() },
+                        Col { name: "a".into(), kind: Kind::Int, omit_when_null: false, cells: a.iter().map(|x| V::Int(*x)).collect() },
+                    ],
+                };
+                let l2 = gen_layout(&mut r, a.len(), 3, false);
+                let op = *r.pick(&["mod", "div"]);
+                let e = AExpr::Bin(op, Box::new(AExpr::Col(0)), Box::new(AExpr::Const(-1)));
+                cases.push(Case { class: format!("expr:min-{}-minus-one", op), input: Sx::tagged("expr", vec![t2.sx(), l2.sx(), e.sx()]) });
+            }
+            if ti % 20 == 7 {
+                // a partition whose partial SUM is exactly i64::MAX, merged with another partition
+                let k = 1 + r.below(3) as i64;
+                let tail: Vec<i64> = (0..1 + r.below(3)).map(|_| r.range(-9, 9)).collect();
+                let mut a = vec![i64::MAX - k, k];
+                a.extend(tail.iter());
+                let t2 = Table {
+                    cols: vec![
+                        Col { name: "id".into(), kind: Kind::Int, omit_when_null: false, cells: (0..a.len() as i64).map(V::Int).collect() },
+                        Col { name: "a".into(), kind: Kind::Int, omit_when_null: false, cells: a.iter().map(|x| V::Int(*x)).collect() },
+                    ],
+                };
+                let mut l2 = Layout::single(a.len());
+                l2.batches = vec![2, a.len() - 2];
+                l2.flush = vec![true, r.chance(1, 2)];
+                cases.push(Case { class: "sum:partial-i64max".into(), input: Sx::tagged("sum", vec![t2.sx(), l2.sx(), Sx::int(0)]) });
             }
             for qi in 0..3 {
                 let col = if qi == 2 { 2 } else { r.below(2) as usize };
@@ -260,6 +299,7 @@ impl Suite for C06Api {
                 // reference
                 let refs: Vec<Result<Option<i64>, ()>> = rows.iter().map(|row| ref_eval(&e, row)).collect();
                 let any_err = refs.iter().any(|x| x.is_err());
+                let mut sentinel_only = false;
                 let (impl_out, oracle) = match &out {
                     QOut::Rows(rs) => {
                         let cells: Vec<Sx> = rs
@@ -282,11 +322,13 @@ impl Suite for C06Api {
                         let oracle = if any_err {
                             Some(format!("`{}` returned rows although a row overflows / divides by zero", sql))
                         } else if got != want {
+                            sentinel_only = got.len() == want.len()
+                                && got.iter().zip(want.iter()).all(|(g, w)| g == w || (*g == Some(None) && *w == Some(Some(i64::MAX))));
                             Some(format!("`{}` returned {:?}, exact {:?}", sql, got, want))
                         } else {
                             None
                         };
-                        (Sx::l(vec![Sx::a("ok"), Sx::l(cells)]), oracle.map(|m| ("mismatch:expr:wrong-value".to_string(), m)))
+                        (Sx::l(vec![Sx::a("ok"), Sx::l(cells)]), oracle.map(|m| (if sentinel_only { "mismatch:expr:i64max-returned-as-null" } else { "mismatch:expr:wrong-value" }.to_string(), m)))
                     }
                     QOut::Err(kind, msg) if kind == "overflow" => (
                         Sx::l(vec![Sx::a("err"), Sx::a("overflow")]),
@@ -342,7 +384,16 @@ impl Suite for C06Api {
                         if ok {
                             None
                         } else {
-                            Some(("mismatch:sum:wrong-value".to_string(), format!("`{}` returned {:?}, exact sum {} of {} values", sql, rs, exact_sum, vals.len())))
+                            let sig = if matches!(rs.as_slice(), [row] if matches!(row.as_slice(), [V::Null])) && exact_sum == i64::MAX as i128 {
+                                "mismatch:sum:i64max-returned-as-null"
+                            } else if matches!(rs.as_slice(), [row] if matches!(row.as_slice(), [V::Float(_)])) {
+                                "mismatch:sum:float-for-int"
+                            } else if partial_hits_sentinel(&rows, col, &layout) {
+                                "mismatch:sum:partial-sum-equals-i64max-sentinel"
+                            } else {
+                                "mismatch:sum:wrong-value"
+                            };
+                            Some((sig.to_string(), format!("`{}` returned {:?}, exact sum {} of {} values", sql, rs, exact_sum, vals.len())))
                         }
                     }
                     QOut::Err(kind, _) if kind == "overflow" => {
@@ -366,6 +417,26 @@ impl Suite for C06Api {
             other => panic!("unknown case kind {}", other),
         }
     }
+}
+
+/// does the SUM of some contiguous run of ingestion batches equal i64::MAX (the I64_NULL sentinel)?
+fn partial_hits_sentinel(rows: &[Vec<Option<i64>>], col: usize, layout: &Layout) -> bool {
+    let mut sums: Vec<i128> = vec![];
+    let mut start = 0;
+    for len in &layout.batches {
+        sums.push(rows[start..start + len].iter().filter_map(|r| r[col]).map(|x| x as i128).sum());
+        start += len;
+    }
+    for i in 0..sums.len() {
+        let mut acc = 0i128;
+        for s in &sums[i..] {
+            acc += s;
+            if acc == i64::MAX as i128 {
+                return true;
+            }
+        }
+    }
+    false
 }
 
 /// does some row hit `x / -1` with x = -i64::MAX (reported as overflow by the engine's guard)?
